@@ -119,7 +119,7 @@ def run(ctx):
         ctx.machinery(f"TLC Termination/TM_linger: expected the exit ladder not to cover a lingering thread / exit hook of the remote code, got {lg.violated}")
     ctx.note("TLC Termination/TM_linger: with remote code that left a non-daemon thread or a blocking exit hook behind the ladder does not end the "
              "worker (WorkerGoneInTime violated) - the listed finding lingering-user-thread-or-exit-hook")
-    envs = ["idle", "receive", "busy", "sleep", "swallow", "sigign", "thread", "sending", "cbdropped", "cbraises", "cbraises_dropped"]
+    envs = ["idle", "receive", "busy", "sleep", "swallow", "sigign", "thread", "sending", "cbdropped", "cbraises", "cbraises_dropped", "func_kwargs"]
     base = []
     for env in envs:
         base.append({"env": env, "execmodel": "thread", "topo": "popen"})
